@@ -123,8 +123,15 @@ def run(run, replay=None):
                 if srv.rpc("RegisterWord", {"kind": kind, "reading": rd, "word": w})[0] == "ok":
                     sent.append((rd, w))
             stats["bulk_registrations"] = len(sent)
-            S.wait_until(lambda: (lambda d: d is not None and len(d["user_entries"]) >= len(sent))(srv.dump()), 20.0)
+            S.wait_until(lambda: (lambda d: d is not None and len(d["user_entries"]) >= len(sent))(srv.dump()), 60.0)
+            # the updater may still be applying entries on a loaded machine: wait until two dumps in a row agree
             d0 = srv.dump()
+            for _ in range(40):
+                time.sleep(1.0)
+                d_next = srv.dump()
+                if d_next is not None and d0 is not None and d_next["user_entries"] == d0["user_entries"]:
+                    break
+                d0 = d_next
             time.sleep(2.5)          # two save ticks
             size = os.path.getsize(os.path.join(ud, "user.dic")) if os.path.exists(os.path.join(ud, "user.dic")) else 0
             stats["bulk_user_dic_bytes"] = size
